@@ -50,6 +50,10 @@ type Options struct {
 	// NoShard: run the whole tree in this process regardless of VERIF_SHARD (the harness shards
 	// at scenario level instead).
 	NoShard bool
+	// SplitDepth: deviation depth at which subtrees are dealt to the shards (default 2).  Every
+	// shard runs the executions above that depth itself; a larger value gives smaller, better
+	// balanced subtrees for trees with many free alternatives.
+	SplitDepth int
 	// DeadlockOK: a deadlock is reported through Result only (default: the explorer records a
 	// violation "deadlock").
 	DeadlockOK bool
@@ -117,7 +121,10 @@ func Explore(opts Options, body func(), check func(r *Result)) Stats {
 	if opts.NoShard {
 		shard, nshards = 0, 1
 	}
-	const splitDepth = 2
+	splitDepth := 2
+	if opts.SplitDepth > 0 {
+		splitDepth = opts.SplitDepth
+	}
 	counter := 0
 	var replay struct {
 		Choices []int `json:"choices"`
